@@ -91,7 +91,7 @@ PROPS = {
                "thorough": [mc("Core-addr-2x2", must_cover=SUBMIT), mc("Core-addr-b1-2x3", maxops=3, cfgs="CfgsB1", must_cover=SUBMIT), mc("Core-addr-b0-2x2", cfgs="CfgsB0", ops=("send", "call", "ping", "stop")),
                             mc("Core-sc-2x3", maxops=3, kinds="InitKindsSC"), mc("Core-weak-3x2", clients=C3, kinds="InitKindsWeak", cfgs="CfgsB1")]},
         "gen": {"quick": [gen("g-addr-b1-2x2", "Main_Addr2_B1", ops=("send", "call", "ping")), gen("g-ping-b1-2x2", "Main_Addr2_B1", ops=("send", "ping"), scripts="ScriptsCore")], "thorough": [gen("g-addr-b1-2x2", "Main_Addr2_B1", ops=("send", "call", "ping")), gen("g-sc-b1-2x2", "Main_SC_B1", ops=("send", "call"), scripts="ScriptsCore"), gen("g-addr-b0-2x3", "Main_Addr2_B0", maxops=3, ops=("send", "call"))]},
-        "families": [("core", 250, 2500), ("timers", 60, 600), ("stream", 60, 600)],
+        "families": [("core", 250, 2500), ("timers", 60, 600), ("stream", 60, 600), ("mix", 120, 1200)],
         "relevant": r'"ev":"h_begin"', "relevant_min": 2,
     },
     "C02": {
@@ -102,7 +102,7 @@ PROPS = {
                             mc("Core-abandon-sc-2x2", ops=("send", "call", "drop", "abandon"), cfgs="CfgsB1", kinds="InitKindsSC", must_cover=("Abandon",))]},
         "gen": {"quick": [gen("g-sc-b1-2x2", "Main_SC_B1", ops=("send", "call", "drop"))], "thorough": [gen("g-sc-b1-2x2", "Main_SC_B1", ops=("send", "call", "drop"), scripts="ScriptsCore"), gen("g-cancel-2x2", "Main_Addr2_B1", ops=("send", "call"), faults=("cancel",), maxfaults=1)]},
         "live": [(mc("Live-2x2", ops=("send", "call", "ping", "stop", "drop", "await"), scripts="ScriptsPlain", cfgs="CfgsB1"), ["L_Resolves"]), (mc("Live-sc-2x2", ops=("send", "call", "drop"), scripts="ScriptsPlain", cfgs="CfgsB1", kinds="InitKindsSC"), ["L_Resolves"])],
-        "families": [("core", 200, 2000), ("life", 100, 1000), ("fail", 100, 1000), ("awaiters", 100, 1000)],
+        "families": [("core", 200, 2000), ("life", 100, 1000), ("fail", 100, 1000), ("awaiters", 100, 1000), ("mix", 120, 1200)],
         "relevant": r'"op":"call"', "relevant_min": 1,
     },
     "C03": {
@@ -110,7 +110,7 @@ PROPS = {
         "mc": {"quick": [mc("Life-stop-2x2", ops=("send", "stop", "drop", "halt"), scripts="ScriptsStop", cfgs="CfgsTwo", must_cover=("StopTaken", "MailboxClosed", "StoppedEnd"))],
                "thorough": [mc("Life-stop-2x2", ops=("send", "call", "stop", "drop", "halt"), scripts="ScriptsStop"),
                             mc("Life-stop-b1-2x3", maxops=3, ops=("send", "stop", "drop", "halt"), scripts="ScriptsStop", cfgs="CfgsB1")]},
-        "families": [("life", 200, 2000), ("restart", 80, 800), ("stream", 80, 800), ("timeout", 100, 1000), ("fail", 60, 600)],
+        "families": [("life", 200, 2000), ("restart", 80, 800), ("stream", 80, 800), ("timeout", 100, 1000), ("fail", 60, 600), ("mix", 120, 1200)],
         "relevant": r'"ev":"cb"', "relevant_min": 3,
     },
     "C04": {
@@ -122,7 +122,7 @@ PROPS = {
                             mc("Stop-aw-3x2", clients=C3, ops=AWOPS, kinds="InitKindsAW", cfgs="CfgsB1")]},
         "gen": {"quick": [gen("g-stop-2x2", "Main_Addr2_B1", ops=("send", "call", "stop", "halt", "await"))], "thorough": [gen("g-stop-2x2", "Main_Addr2_B1", ops=("send", "call", "stop", "halt", "await"), scripts="ScriptsStop"), gen("g-aw-2x2", "Main_AW_Unb", ops=("send", "stop", "try_stop", "try_halt", "await_ref"))]},
         "live": [(mc("Live-stop-2x2", ops=("send", "call", "stop", "halt", "await"), scripts="ScriptsStop", cfgs="CfgsB1"), ["L_StopTerminates", "L_Resolves"])],
-        "families": [("life", 250, 2500), ("stream", 60, 600), ("timeout", 150, 1500), ("awaiters", 100, 1000)],
+        "families": [("life", 250, 2500), ("stream", 60, 600), ("timeout", 150, 1500), ("awaiters", 100, 1000), ("mix", 120, 1200)],
         "relevant": r'"op":"(stop|halt|try_stop|try_halt|consume|await|await_ref)"|ctx_stop', "relevant_min": 1,
     },
     "C05": {
@@ -134,7 +134,7 @@ PROPS = {
                             mc("Stream-drop-2x2", ops=("send", "drop", "feed", "upgrade"), scripts="ScriptsPlain", cfgs="CfgsStream", kinds="InitKindsAW")]},
         "gen": {"quick": [gen("g-drop-2x2", "Main_AW_Unb", ops=("send", "drop", "upgrade", "clone"))], "thorough": [gen("g-drop-2x3", "Main_AW_Unb", maxops=3, ops=("send", "drop", "upgrade", "downgrade"))]},
         "live": [(mc("Live-drop-2x2", ops=("send", "drop", "clone", "downgrade", "upgrade"), scripts="ScriptsPlain", cfgs="CfgsB1", kinds="InitKindsAW"), ["L_DropTerminates"])],
-        "families": [("life", 250, 2500), ("timers", 80, 800), ("broker", 50, 500), ("stream", 160, 1600)],
+        "families": [("life", 250, 2500), ("timers", 80, 800), ("broker", 50, 500), ("stream", 160, 1600), ("mix", 120, 1200)],
         "relevant": r'"op":"(drop|upgrade|downgrade)"', "relevant_min": 1,
     },
     "C06": {
@@ -145,7 +145,7 @@ PROPS = {
                                cfgs="CfgsB1", faults=("cancel",), maxfaults=1, must_cover=("Cancel", "ScriptStep")),
                             mc("Fail-own-2x3", maxops=3, ops=("send", "call", "await", "join", "stopped", "ping"), scripts="ScriptsFail", cfgs="CfgsFailOwn", kinds="InitKindsOwn", faults=("cancel",), maxfaults=1),
                             mc("Fail-3x2", clients=C3, ops=("send", "call", "await", "halt", "upgrade"), scripts="ScriptsFail", cfgs="CfgsFail", kinds="InitKindsAW", faults=("cancel",), maxfaults=2)]},
-        "families": [("fail", 300, 3000), ("tree", 80, 800), ("timers", 80, 800), ("registry", 80, 800), ("awaiters", 60, 600)],
+        "families": [("fail", 300, 3000), ("tree", 80, 800), ("timers", 80, 800), ("registry", 80, 800), ("awaiters", 60, 600), ("mix", 120, 1200)],
         "relevant": r'"how":"panic"|"ev":"cancel"|"e":"err"|h_abandon', "relevant_min": 1,
     },
     "C07": {
@@ -155,7 +155,7 @@ PROPS = {
                "thorough": [mc("Restart-2x3", maxops=3, ops=("send", "call", "restart", "stop"), scripts="ScriptsRestart", cfgs="CfgsStrat2"),
                             mc("Restart-3x2", clients=C3, ops=("send", "call", "restart"), scripts="ScriptsRestart", cfgs="CfgsStrat2", kinds="InitKindsSC")]},
         "dev_demo": [("D3", mc("Timers-race-1x1", clients=("c1",), maxops=1, ops=("send", "stop", "drop"), scripts="ScriptsTimers", cfgs="CfgsTimersQ", horizon=4))],
-        "families": [("restart", 250, 2500), ("timers", 150, 1500)],
+        "families": [("restart", 250, 2500), ("timers", 150, 1500), ("mix", 120, 1200)],
         "relevant": r'"op":"restart"|ctx_restart', "relevant_min": 1,
     },
     "C08": {
@@ -172,7 +172,7 @@ PROPS = {
                                scripts="ScriptsPlain", cfgs="CfgsSvc", names="NamesMore")]},
         "dev_demo": [("D1", mc("Reg-2x2", actors=("a1", "r1", "r2"), ops=("from_registry", "register", "unregister", "stop"), scripts="ScriptsPlain", cfgs="CfgsSvc", names="NamesMore")),
                      ("D4", mc("Reg-2x2", actors=("a1", "r1", "r2"), ops=("from_registry", "already_running", "stop"), scripts="ScriptsPlain", cfgs="CfgsSvc", names="NamesMore"))],
-        "families": [("registry", 300, 3000)],
+        "families": [("registry", 300, 3000), ("mix", 120, 1200)],
         "release_families": [("registry", 100, 1000)],
         "relevant": r'"op":"(from_registry|setup|register|replace|unregister|try_from_registry|already_running)"', "relevant_min": 2,
     },
@@ -184,7 +184,7 @@ PROPS = {
                                scripts="ScriptsBroker", cfgs="CfgsSub"),
                             mc("Broker-2x3", maxops=3, actors=("a1", "a2", "r1"), extra_actors="SubActors", extra_handles="SubHandles", ops=("publish", "send", "drop", "stop"),
                                scripts="ScriptsBroker", cfgs="CfgsSub")]},
-        "families": [("broker", 300, 3000)],
+        "families": [("broker", 300, 3000), ("mix", 120, 1200)],
         "release_families": [("broker", 60, 600)],
         "relevant": r'"src":"broker"', "relevant_min": 1,
     },
@@ -200,7 +200,7 @@ PROPS = {
                             mc("Timers-idle-1x2", clients=("c1",), maxops=2, ops=("send", "stop", "drop"), scripts="ScriptsPlain", cfgs="CfgsTimers", horizon=8, idle=True),
                             mc("Timers-cancel-1x2", clients=("c1",), maxops=2, ops=("send", "stop"), scripts="ScriptsFail", cfgs="CfgsTimers", horizon=4, faults=("cancel",), maxfaults=1)]},
         "gen": {"quick": [gen("g-timer-2x1", "Main_Addr2_Timer", maxops=1, ops=("send", "stop", "drop"), horizon=4)], "thorough": [gen("g-timer-2x2", "Main_Addr2_Timer", ops=("send", "stop", "drop"), horizon=4)]},
-        "families": [("timers", 300, 3000)],
+        "families": [("timers", 300, 3000), ("mix", 120, 1200)],
         "relevant": r'timer_fire', "relevant_min": 1,
     },
     "C11": {
@@ -212,7 +212,7 @@ PROPS = {
                             mc("Timeout-1x4", clients=("c1",), maxops=4, ops=("send", "call", "stop"), scripts="ScriptsSleep2", cfgs="CfgsTmo", horizon=12),
                             mc("NoTimeout-2x2", ops=("send", "call"), scripts="ScriptsSleep", cfgs="CfgsNoTmo", horizon=8)]},
         "gen": {"quick": [gen("g-tmo-2x1", "Main_Addr2_Tmo", maxops=1, ops=("send", "call"), scripts="ScriptsSleep", horizon=6)], "thorough": [gen("g-tmo-2x2", "Main_Addr2_Tmo", ops=("send", "call"), scripts="ScriptsSleep", horizon=8)]},
-        "families": [("timeout", 300, 3000)],
+        "families": [("timeout", 300, 3000), ("mix", 120, 1200)],
         "relevant": r'h_abandon|"e":"sleep"', "relevant_min": 1,
     },
     "C12": {
@@ -223,7 +223,7 @@ PROPS = {
                             mc("Stream-send-2x2", ops=("send", "stop", "feed"), scripts="ScriptsPlain", cfgs="CfgsStream")]},
         "gen": {"quick": [gen("g-addr-b0-2x2", "Main_Addr2_B0", ops=("send", "call", "stop"))], "thorough": [gen("g-addr-b0-2x3", "Main_Addr2_B0", maxops=3, ops=("send", "call")), gen("g-sc-b1-2x3", "Main_SC_B1", maxops=3, ops=("send", "call"))]},
         "live": [(mc("Live-send-2x2", ops=("send", "call", "stop"), scripts="ScriptsPlain", cfgs="CfgsB1", kinds="InitKindsSC"), ["L_SendReturns"]), (mc("Live-send0-2x2", ops=("send", "call", "drop"), scripts="ScriptsPlain", cfgs="CfgsCore"), ["L_SendReturns"])],
-        "families": [("core", 250, 2500), ("stream", 100, 1000)],
+        "families": [("core", 250, 2500), ("stream", 100, 1000), ("mix", 120, 1200)],
         "relevant": r'"op":"send"', "relevant_min": 1,
     },
     "C13": {
@@ -231,7 +231,7 @@ PROPS = {
         "mc": {"quick": [mc("Stream-2x2", ops=("send", "stop", "drop", "feed", "end_stream"), scripts="ScriptsPlain", cfgs="CfgsStream",
                             must_cover=("StreamItem", "StreamDone", "FinishedEnd", "StreamFeed", "StopTaken", "MailboxClosed"))],
                "thorough": [mc("Stream-2x3", maxops=3, ops=("send", "call", "stop", "drop", "feed", "end_stream", "await"), scripts="ScriptsStop", cfgs="CfgsStream")]},
-        "families": [("stream", 300, 3000)],
+        "families": [("stream", 300, 3000), ("mix", 120, 1200)],
         "relevant": r'"src":"stream"|"name":"fb"', "relevant_min": 1,
     },
     "C14": {
@@ -239,7 +239,7 @@ PROPS = {
         "mc": {"quick": [mc("Query-2x3", maxops=3, ops=QOPS, scripts="ScriptsPlain", cfgs="CfgsUnb", must_cover=("Query", "AwaitReturn", "StopTaken"))],
                "thorough": [mc("Query-3x3", maxops=3, clients=C3, ops=QOPS, scripts="ScriptsPlain", cfgs="CfgsUnb", kinds="InitKindsAW")]},
         "dev_demo": [("D1", mc("Query-2x3", maxops=3, ops=QOPS, scripts="ScriptsPlain", cfgs="CfgsUnb"))],
-        "families": [("life", 200, 2000), ("registry", 150, 1500), ("fail", 100, 1000), ("awaiters", 80, 800)],
+        "families": [("life", 200, 2000), ("registry", 150, 1500), ("fail", 100, 1000), ("awaiters", 80, 800), ("mix", 120, 1200)],
         "relevant": r'"op":"(stopped|running|try_from_registry|already_running)"', "relevant_min": 1,
     },
     "C15": {
@@ -248,7 +248,7 @@ PROPS = {
                "thorough": [mc("Kinds-2x3", maxops=3, ops=KOPS, scripts="ScriptsStop", cfgs="CfgsUnb", kinds="InitKindsCaller"), 
                             mc("Kinds-sc-2x3", maxops=3, ops=KOPS, scripts="ScriptsRestart", cfgs="CfgsUnb", kinds="InitKindsSC")]},
         "dev_demo": [("D2", mc("Kinds-2x2", ops=KOPS, scripts="ScriptsStop", cfgs="CfgsUnb", kinds="InitKindsCaller"))],
-        "families": [("life", 250, 2500), ("timers", 80, 800)],
+        "families": [("life", 250, 2500), ("timers", 80, 800), ("mix", 120, 1200)],
         "relevant": r'"op":"(caller|sender|upgrade|weak_caller|weak_sender)"|ctx_stop', "relevant_min": 1,
     },
     "C16": {
@@ -258,7 +258,7 @@ PROPS = {
                          mc("Flat-2x1", maxops=1, actors=("a1", "a2"), extra_actors="FlatActors", extra_handles="FlatHandles", ops=("send", "stop", "drop"), scripts="ScriptsTree", cfgs="CfgsParent")],
                "thorough": [mc("Tree-1x3", maxops=3, clients=("c1",), actors=("a1", "a2", "a3"), extra_actors="TreeActors", extra_handles="TreeHandles1", ops=("send", "stop", "drop", "restart"), scripts="ScriptsTree", cfgs="CfgsParent"),
                             mc("Tree-cancel-1x2", clients=("c1",), actors=("a1", "a2", "a3"), extra_actors="TreeActors", extra_handles="TreeHandles1", ops=("send", "stop", "drop"), scripts="ScriptsTree", cfgs="CfgsParent", faults=("cancel",), maxfaults=1)]},
-        "families": [("tree", 300, 3000)],
+        "families": [("tree", 300, 3000), ("mix", 120, 1200)],
         "relevant": r'"e":"(add_child|register_bc|register_bc2|broadcast_\w+)"', "relevant_min": 1,
     },
     "C17": {
@@ -267,7 +267,7 @@ PROPS = {
                "thorough": [mc("Own-3x3", maxops=3, clients=C3, ops=OWNOPS, scripts="ScriptsStop", cfgs="CfgsOwn", kinds="InitKindsOwn"),
                             mc("Own-abandon-2x3", maxops=3, ops=OWNOPS + ("abandon",), scripts="ScriptsPlain", cfgs="CfgsOwn", kinds="InitKindsOwn", must_cover=("Abandon",))]},
         "gen": {"quick": [gen("g-own-2x2", "Main_Own_B1", ops=("send", "join", "consume", "stop", "detach"))], "thorough": [gen("g-own-2x3", "Main_Own_B1", maxops=3, ops=("send", "join", "consume", "stop", "detach", "drop"))]},
-        "families": [("life", 250, 2500), ("fail", 100, 1000), ("stream", 100, 1000)],
+        "families": [("life", 250, 2500), ("fail", 100, 1000), ("stream", 100, 1000), ("mix", 120, 1200)],
         "relevant": r'"op":"(join|consume|consume_sync|detach)"', "relevant_min": 1,
     },
 }
